@@ -164,3 +164,90 @@ func predeclareShape(f *ast.File) bool {
 	}
 	return true
 }
+
+// caseClause returns the clause of compiler.compile's switch whose only label is the given string
+func caseClause(f *ast.File, label string) *ast.CaseClause {
+	fd := findMethod(f, "compile")
+	if fd == nil {
+		return nil
+	}
+	var found *ast.CaseClause
+	ast.Inspect(fd.Body, func(n ast.Node) bool {
+		cc, ok := n.(*ast.CaseClause)
+		if !ok || found != nil {
+			return found == nil
+		}
+		if len(cc.List) == 1 {
+			if s, ok := strLit(cc.List[0]); ok && s == label {
+				found = cc
+			}
+		}
+		return true
+	})
+	return found
+}
+
+// tupleAssignShape reports whether the compile case "=" has the shape the Tuple model assumes: the operands of index
+// and field targets are compiled first (into hidden slots when there are several targets), then the right-hand side,
+// and then ONE loop emits the stores for the targets from the last to the first.
+func tupleAssignShape(f *ast.File) bool {
+	cc := caseClause(f, "=")
+	if cc == nil {
+		return false
+	}
+	var body strings.Builder
+	for _, st := range cc.Body {
+		body.WriteString(squash(src(st)))
+		body.WriteString(";")
+	}
+	b := body.String()
+	operands := strings.Index(b, `forn,arg:=rangetargets{ifarg.Symbol!="index"&&arg.Symbol!="."{continue}`)
+	hidden := strings.Index(b, `iflen(targets)==1&&!hasCall(arg.Tokens[indexItem])&&!(arg.Symbol=="index"&&hasCall(arg.Tokens[indexKey])){continue}hi:=c.Locals.Index(arg.Pos.String()+"#item")`)
+	rhs := strings.Index(b, `res=append(res,c.compile(tok.Tokens[1])...);`)
+	stores := strings.Index(b, `fori:=1;i<=len(tok.Tokens[0].Tokens);i++{arg:=tok.Tokens[0].Tokens[len(tok.Tokens[0].Tokens)-i]`)
+	return operands >= 0 && hidden > operands && rhs > hidden && stores > rhs &&
+		strings.Count(b, "codeSet}") == 1 && strings.Count(b, "res=append(res,c.compile(tok.Tokens[1])...)") == 1
+}
+
+// typeObjectShape reports whether GLOBALSTRUCT, syncFields and addField have the shape the TObj model assumes: a
+// second declaration of a type name is merged into the existing object field by field, in the new object's Order;
+// addField appends a name to Order only when Lookup does not know it and stores the value with Fields.Set.
+func typeObjectShape(valF, doF *ast.File) bool {
+	sf, af := findValueMethod(valF, "syncFields"), findValueMethod(valF, "addField")
+	if sf == nil || af == nil || doF == nil {
+		return false
+	}
+	if squash(src(sf.Body)) != `{cur:=b.value.(*structT)for_,key:=rangecur.Order{idx:=cur.Lookup[key]value,_:=cur.Fields.Get(idx)v.addField(key,idx,value)}}` {
+		return false
+	}
+	if squash(src(af.Body)) != `{if_,ok:=v.value.(*structT).Lookup[key];!ok{v.value.(*structT).Order=append(v.value.(*structT).Order,key)}v.value.(*structT).Lookup[key]=idxv.value.(*structT).Fields.Set(idx,val)}` {
+		return false
+	}
+	found := false
+	ast.Inspect(doF, func(n ast.Node) bool {
+		cc, ok := n.(*ast.CaseClause)
+		if !ok || len(cc.List) != 1 || squash(src(cc.List[0])) != "codeGlobalStruct" {
+			return true
+		}
+		var body strings.Builder
+		for _, st := range cc.Body {
+			body.WriteString(squash(src(st)))
+			body.WriteString(";")
+		}
+		found = strings.Contains(body.String(), `ifprev.IsNil(){v.globals.Write(int(i.A),cur)}else{prev.syncFields(cur)};`)
+		return false
+	})
+	return found
+}
+
+func findValueMethod(f *ast.File, name string) *ast.FuncDecl {
+	if f == nil {
+		return nil
+	}
+	for _, d := range f.Decls {
+		if fd, ok := d.(*ast.FuncDecl); ok && fd.Name.Name == name && fd.Recv != nil && fd.Body != nil {
+			return fd
+		}
+	}
+	return nil
+}
